@@ -29,8 +29,8 @@ by the correspondence harness on the real code):
     `discardParentIfEmpty`) is derived: a parent's endpoint set is "endpoints that
     list it", a missing parent has no labels.
   * Go panics / nil dereferences set the `panicked` flag: those guarding inconsistent
-    bookkeeping are proved unreachable; the one in `DiscardEndpointID` IS reachable when an
-    endpoint lists the same profile id twice (see `discardPanics`).
+    bookkeeping, incl. the one in `DiscardEndpointID` (`discardPanics`), are proved
+    unreachable (a repeated profile id is de-duplicated on update: `dedupParents`).
 
 Core Lean only.
 -/
@@ -337,8 +337,14 @@ def discardPanics (id : String) (discarded : List String) (st : Idx Sel) : Bool 
   discarded.any (fun p =>
     decide (2 ≤ discarded.count p) && st.eps.all (fun q => q.1 == id || !(q.2.parents.contains p)))
 
-/-- `UpdateEndpointOrSet`. -/
-def updateEndpoint (id : String) (labels : Labels) (nets : List Cidr) (ports : List Port)
+/-- the loop that builds `newEndpointData.parents`: a parent that is already in the slice is
+skipped, so a repeated profile id counts once (first occurrence wins for label inheritance). -/
+def dedupParents (parentIDs : List String) : List String :=
+  parentIDs.foldl (fun acc p => if p ∈ acc then acc else acc ++ [p]) []
+
+/-- `UpdateEndpointOrSet` from the point where `newEndpointData` has been built (`parents` is the
+de-duplicated list). -/
+def updateEndpointCore (id : String) (labels : Labels) (nets : List Cidr) (ports : List Port)
     (parents : List String) (st : Idx Sel) : Idx Sel :=
   let new : EpData := { labels := labels, nets := nets, ports := ports, parents := parents, cached := [] }
   match alGet id st.eps with
@@ -356,6 +362,11 @@ def updateEndpoint (id : String) (labels : Labels) (nets : List Cidr) (ports : L
   | none =>
     let r := scanEp matchSel new [] st
     { r.1 with eps := alSet id r.2 r.1.eps }
+
+/-- `UpdateEndpointOrSet`. -/
+def updateEndpoint (id : String) (labels : Labels) (nets : List Cidr) (ports : List Port)
+    (parentIDs : List String) (st : Idx Sel) : Idx Sel :=
+  updateEndpointCore matchSel id labels nets ports (dedupParents parentIDs) st
 
 /-- `DeleteEndpoint`. -/
 def deleteEndpoint (id : String) (st : Idx Sel) : Idx Sel :=
@@ -535,8 +546,8 @@ def replay (es : List Event) : Option Down := replayFrom [] es
   `ipset_members_eq_spec` — for every history `ops` with `∀ op ∈ ops, op.ok`,
   `replay (run … ops).out = some D`, `D.Nodup`, no panic / wrap, and
   `(s, m) ∈ D ↔ memberSpec … s m`;  `refcount_eq_card`;  `suppressed_cover_eq_spec`;
-  `run_suppress`.  `Op.ok` (in `Proofs/C04Main.lean`): nets canonical, profile-id lists
-  duplicate-free.
+  `run_suppress`.  `Op.ok` (in `Proofs/C04Main.lean`): nets canonical (profile-id lists may
+  repeat ids; they are de-duplicated by `UpdateEndpointOrSet`).
 -/
 
 section Spec
